@@ -10,7 +10,8 @@ ASSUMPTIONS = [
     "the target is a regular file: read() is short only at end of file",
     "codec and hash as in C02 (side table from libzstd; Lean's own SHA)",
 ]
-OPS = ['v', 'f', 'd', 'rc', 'vrc', 'drc', 'frc', 'vdrc', 'dvrc', 'vvrc', 'fdvrc', 'ddrc', 'vd', 'dv']
+OPS = ['v', 'f', 'd', 'rc', 'vrc', 'drc', 'frc', 'vdrc', 'dvrc', 'vvrc', 'fdvrc', 'ddrc', 'vd', 'dv',
+       'rv', 'rf', 'rd', 'rvd', 'vrv', 'rdf', 'frf', 'drvf']       # validations AFTER reads on the same context too
 
 def damaged(rnd, z, states):
     """target bytes with each chunk region present / zeroed / garbage"""
